@@ -8,6 +8,7 @@
 
 mod audit;
 mod connector;
+mod text;
 
 use std::cell::{Cell, RefCell};
 use std::collections::{BTreeMap, BTreeSet};
@@ -178,6 +179,8 @@ struct Cx<'a> {
     ext_vars: RefCell<BTreeSet<String>>,
     /// parameters dropped from the signature (element handles, the context): any use is an error
     forbidden: BTreeSet<String>,
+    /// function-local `const` items emitted as definitions of the same name
+    consts: BTreeSet<String>,
 }
 
 impl<'a> Cx<'a> {
@@ -192,6 +195,7 @@ impl<'a> Cx<'a> {
             fresh: Cell::new(0),
             ext_vars: RefCell::new(BTreeSet::new()),
             forbidden: BTreeSet::new(),
+            consts: BTreeSet::new(),
         }
     }
 }
@@ -213,6 +217,8 @@ impl<'a> Cx<'a> {
                     Ok("none".into())
                 } else if one == "self" {
                     Ok("self".into())
+                } else if self.consts.contains(one) {
+                    Ok(one.clone())
                 } else if self.forbidden.contains(one) {
                     Err(format!("use of `{one}` (a parameter outside the translated subset)"))
                 } else if self.ext_vars.borrow().contains(one) {
@@ -268,6 +274,7 @@ impl<'a> Cx<'a> {
             Pat::Paren(pp) => self.pat(&pp.pat)?,
             Pat::Lit(l) => match &l.lit {
                 Lit::Str(s) => char_list(&s.value()),
+                Lit::Bool(b) => format!("{}", b.value),
                 other => return Err(format!("unsupported literal pattern {}", quote::quote!(#other))),
             },
             Pat::Or(_) => return Err("or-pattern in nested position".into()),
@@ -546,6 +553,10 @@ impl<'a> Cx<'a> {
         if (name == "to_owned" || name == "to_string") && args.is_empty() {
             if let Some(s) = lit_str(recv) {
                 return Ok(char_list(&s));
+            }
+            // a conditional all of whose leaves are string literals: `.to_owned()` is the identity on `Str`
+            if !matches!(recv, Expr::Lit(_)) && str_leaves(recv) {
+                return self.expr(recv);
             }
         }
         if name == "ok_or_else" && self.monadic {
@@ -1185,6 +1196,21 @@ fn tuple_arrays(block: &Block) -> Vec<Vec<Vec<Expr>>> {
     let mut v = V(vec![]);
     syn::visit::Visit::visit_block(&mut v, block);
     v.0
+}
+
+/// every leaf of the conditional expression is a string literal
+fn str_leaves(e: &Expr) -> bool {
+    fn block(b: &Block) -> bool {
+        matches!(b.stmts.as_slice(), [Stmt::Expr(e, None)] if str_leaves(e))
+    }
+    match e {
+        Expr::Lit(l) => matches!(l.lit, Lit::Str(_)),
+        Expr::Paren(p) => str_leaves(&p.expr),
+        Expr::Match(m) => !m.arms.is_empty() && m.arms.iter().all(|a| str_leaves(&a.body)),
+        Expr::If(i) => block(&i.then_branch) && i.else_branch.as_ref().is_some_and(|(_, e)| str_leaves(e)),
+        Expr::Block(b) => block(&b.block),
+        _ => false,
+    }
 }
 
 fn lit_str(e: &Expr) -> Option<String> {
@@ -1874,6 +1900,7 @@ fn main() {
         ("Tables.lean", gen_tables as fn(&Path) -> R<String>),
         ("Audit.lean", audit::gen_audit as fn(&Path) -> R<String>),
         ("Connector.lean", connector::gen_connector as fn(&Path) -> R<String>),
+        ("Text.lean", text::gen_text as fn(&Path) -> R<String>),
     ] {
         match gen(src) {
             Ok(text) => match write_if_changed(&out.join(name), &text) {
